@@ -8,9 +8,7 @@ use crate::blockchain::proto::script;
 use bitcoin::hashes::Hash as _;
 
 pub fn mk_blkfile(id: u8) -> BlkFile {
-    let mut name = String::new();
-    name.push((b'0' + id) as char);
-    BlkFile::new(PathBuf::from(name), None)
+    BlkFile::new(gfs::path_for(id as usize), None)
 }
 pub fn is_open(b: &BlkFile) -> bool { b.reader.is_some() }
 pub fn force_open(b: &mut BlkFile) {
@@ -99,7 +97,7 @@ macro_rules! read_at {
                 gfs::LEN.v[3] = FL;
             }
             let coin = CoinType { name: String::new(), magic: 0, version_id: 0x00, genesis_hash: bitcoin::hashes::sha256d::Hash::from_byte_array([0; 32]), aux_pow_activation_version: None, default_folder: PathBuf::new() };
-            let mut bf = BlkFile::new(PathBuf::from("3"), Some(key.to_vec()));
+            let mut bf = BlkFile::new(gfs::path_for(3), Some(key.to_vec()));
             let offs: [usize; 2] = [$o1, $o2];
             let mut r = 0;
             while r < 2 {
@@ -126,15 +124,15 @@ macro_rules! read_at {
         }
     };
 }
-//@ id=C03,C11 tier=thorough name=c03_read_at_fwd timeout=5400 role=read_at bound=ghost-file-100B,xor-key-2,reads-at-offsets-5-then-18(forward,odd-then-even-offset) mem=20 fn=BlkFile::read_block,BlkFile::open,XorReader::read,XorReader::seek,read_block,read_block_header
+//@ id=C03,C11 tier=thorough name=c03_read_at_fwd timeout=7200 role=read_at bound=ghost-file-100B,xor-key-2,reads-at-offsets-5-then-18(forward,odd-then-even-offset) mem=30 fn=BlkFile::read_block,BlkFile::open,XorReader::read,XorReader::seek,read_block,read_block_header
 read_at!(c03_read_at_fwd, 5, 18);
-//@ id=C03,C11 tier=thorough name=c03_read_at_back timeout=5400 role=read_at bound=reads-at-offsets-17-then-8(backward-seek) mem=20
+//@ id=C03,C11 tier=thorough name=c03_read_at_back timeout=7200 role=read_at bound=reads-at-offsets-17-then-8(backward-seek) mem=20
 read_at!(c03_read_at_back, 17, 8);
 //@ id=C03,C11 tier=thorough name=c03_read_at_same timeout=1800 role=read_at bound=same-offset-twice mem=20
 read_at!(c03_read_at_same, 9, 9);
 
 // truncated file: the file ends at a symbolic byte inside [offset-4, offset+81): Err, no panic
-//@ id=C10,C14 tier=quick name=c10_read_truncated timeout=1800 role=read_fault bound=ghost-file(<=120B)-truncated-at-any-length,block-at-offset-20 mem=20 fn=BlkFile::read_block,read_block,read_block_header
+//@ id=C10,C14 tier=thorough name=c10_read_truncated timeout=5400 role=read_fault bound=ghost-file(<=120B)-truncated-at-any-length,block-at-offset-20 mem=20 fn=BlkFile::read_block,read_block,read_block_header
 #[kani::proof]
 #[kani::unwind(204)]
 #[kani::stub(crate::blockchain::proto::script::eval_from_bytes, stub_eval)]
@@ -152,7 +150,7 @@ fn c10_read_truncated() {
         gfs::LEN.v[2] = flen;
     }
     let coin = CoinType { name: String::new(), magic: 0, version_id: 0x00, genesis_hash: bitcoin::hashes::sha256d::Hash::from_byte_array([0; 32]), aux_pow_activation_version: None, default_folder: PathBuf::new() };
-    let mut bf = BlkFile::new(PathBuf::from("2"), None);
+    let mut bf = BlkFile::new(gfs::path_for(2), None);
     let o: u64 = 20;
     kani::assume(plain[o as usize + 80] == 0);
     let complete = (o as usize) + 81 <= flen;
@@ -168,7 +166,7 @@ fn c10_read_truncated() {
 }
 
 // missing file -> Err
-//@ id=C10 tier=quick name=c10_read_missing timeout=900 role=read_fault bound=blk-file-removed fn=BlkFile::read_block,BlkFile::open
+//@ id=C10 tier=thorough name=c10_read_missing timeout=3600 role=read_fault bound=blk-file-removed fn=BlkFile::read_block,BlkFile::open
 #[kani::proof]
 #[kani::unwind(40)]
 #[kani::stub(crate::blockchain::proto::script::eval_from_bytes, stub_eval)]
@@ -177,7 +175,7 @@ fn c10_read_truncated() {
 fn c10_read_missing() {
     unsafe { gfs::EXISTS.v[4] = false; }
     let coin = CoinType { name: String::new(), magic: 0, version_id: 0x00, genesis_hash: bitcoin::hashes::sha256d::Hash::from_byte_array([0; 32]), aux_pow_activation_version: None, default_folder: PathBuf::new() };
-    let mut bf = BlkFile::new(PathBuf::from("4"), None);
+    let mut bf = BlkFile::new(gfs::path_for(4), None);
     match bf.read_block(8, &coin) {
         Ok(b) => { assert!(false, "C10:missing_file_is_an_error"); core::mem::forget(b); }
         Err(e) => { core::mem::forget(e); }
